@@ -193,6 +193,11 @@ def eff_of(cell, param_state=None):
     return eff
 
 
+def VS_ROUTE(model):
+    # jaxley.stone / jaxley.thomas refuse networks whose cells differ in their compartment counts (documented): jax.sparse there
+    return "jax.sparse" if model.get("container") == "network" else "jaxley.thomas"
+
+
 def routes(model, frozen, lab, dst, src):
     """C10: set(), data_set() and make_trainable()+params are equivalent ways of setting a value."""
     name, a = parse_action_label(lab)
@@ -207,7 +212,7 @@ def routes(model, frozen, lab, dst, src):
     if obs_possible:
         c_set = Ctx.thaw(model, frozen)
         apply(c_set, lab)
-        want_obs = np.asarray(jx.integrate(c_set.cell, params=c_set.cell.get_parameters(), delta_t=DT, voltage_solver="jaxley.thomas", **kw))
+        want_obs = np.asarray(jx.integrate(c_set.cell, params=c_set.cell.get_parameters(), delta_t=DT, voltage_solver=VS_ROUTE(model), **kw))
     # data_set: functional, must not touch the tables
     c3 = Ctx.thaw(model, frozen)
     before = project(c3, with_eff=False)
@@ -218,7 +223,7 @@ def routes(model, frozen, lab, dst, src):
     if e3 != dst["eff"]:
         bad.append({"route": "data_set", "what": "parameters differ from set()", "got": e3, "want": dst["eff"]})
     if want_obs is not None:
-        o3 = np.asarray(jx.integrate(c3.cell, params=c3.cell.get_parameters(), param_state=ps, delta_t=DT, voltage_solver="jaxley.thomas", **kw))
+        o3 = np.asarray(jx.integrate(c3.cell, params=c3.cell.get_parameters(), param_state=ps, delta_t=DT, voltage_solver=VS_ROUTE(model), **kw))
         if not np.allclose(o3, want_obs, rtol=0, atol=1e-9, equal_nan=True):
             bad.append({"route": "data_set", "what": "simulation differs from set()"})
     # make_trainable + params (refused when the view holds no settable row: set() is a no-op there)
@@ -230,7 +235,7 @@ def routes(model, frozen, lab, dst, src):
     if e4 != dst["eff"]:
         bad.append({"route": "make_trainable", "what": "parameters differ from set()", "got": e4, "want": dst["eff"]})
     if want_obs is not None:
-        o4 = np.asarray(jx.integrate(c4.cell, params=c4.cell.get_parameters(), delta_t=DT, voltage_solver="jaxley.thomas", **kw))
+        o4 = np.asarray(jx.integrate(c4.cell, params=c4.cell.get_parameters(), delta_t=DT, voltage_solver=VS_ROUTE(model), **kw))
         if not np.allclose(o4, want_obs, rtol=0, atol=1e-9, equal_nan=True):
             bad.append({"route": "make_trainable", "what": "simulation differs from set()"})
     return bad
@@ -260,6 +265,8 @@ def integrate(ctx, want_obs):
     import zlib
     pick = zlib.crc32(json.dumps(want_obs).encode() + str(len(cell.nodes.columns)).encode()) % 3
     backends = [("jaxley.thomas", "jax.sparse", "jaxley.stone")[pick]] if ctx.model.get("quick") else ["jaxley.thomas", "jax.sparse"]
+    if ctx.container == "network":
+        backends = ["jax.sparse"]       # the jaxley.* solvers refuse cells of different compartment counts (documented refusal)
     for vs in backends:
         out = np.asarray(jx.integrate(cell, params=cell.get_parameters(), delta_t=DT, voltage_solver=vs, **kw))
         outs.append(out)
